@@ -777,3 +777,485 @@ Section BnafP.
     - apply Nat.leb_le. rewrite Nat.div_1_r. lia.
   Qed.
 End BnafP.
+
+(* ------------------------------------------------------------------------------------------ *)
+(* 8. the reachability matrix of the model (what the tie compares Jacobian sparsity with)      *)
+(* ------------------------------------------------------------------------------------------ *)
+Definition bmm_row (row2 : list bool) (m1 : list (list bool)) (nc : nat) : list bool :=
+  fold_right (fun (p : bool * list bool) acc => if fst p then orv (snd p) acc else acc) (repeat false nc) (combine row2 m1).
+Lemma bmm_rows m2 m1 nc : bmm m2 m1 nc = map (fun row2 => bmm_row row2 m1 nc) m2.
+Proof. reflexivity. Qed.
+
+Lemma nth_error_orv a b j x y : nth_error a j = Some x -> nth_error b j = Some y -> nth_error (orv a b) j = Some (x || y).
+Proof. intros Ha Hb. unfold orv. rewrite nth_error_map, nth_error_combine, Ha, Hb. reflexivity. Qed.
+Lemma orv_length a b : length (orv a b) = Nat.min (length a) (length b).
+Proof. unfold orv. rewrite map_length, combine_length. reflexivity. Qed.
+Lemma nth_error_Some_nth {T} (l : list T) j d : (j < length l)%nat -> nth_error l j = Some (nth j l d).
+Proof. revert j. induction l as [|a l IH]; intros j H; cbn in H; [lia|]. destruct j; [reflexivity|]. cbn. apply IH. lia. Qed.
+
+Lemma fold_orv_spec nc j (l : list (bool * list bool)) :
+  Forall (fun p => length (snd p) = nc) l -> (j < nc)%nat ->
+  nth_error (fold_right (fun (p : bool * list bool) acc => if fst p then orv (snd p) acc else acc) (repeat false nc) l) j =
+  Some (existsb (fun p : bool * list bool => fst p && nth j (snd p) false) l).
+Proof.
+  intros Hl Hj. induction l as [|p l IH]; cbn [fold_right existsb].
+  - apply nth_error_repeat; exact Hj.
+  - apply Forall_cons_iff in Hl. destruct Hl as [Hp Hl']. specialize (IH Hl'). destruct (fst p); cbn [andb].
+    + apply nth_error_orv; [|exact IH]. apply nth_error_Some_nth. lia.
+    + exact IH.
+Qed.
+
+Lemma Forall_combine_snd {T U} (P : U -> Prop) (a : list T) (b : list U) :
+  Forall P b -> Forall (fun p => P (snd p)) (combine a b).
+Proof.
+  intros H. apply Forall_forall. intros [u v] Hin. apply in_combine_r in Hin. rewrite Forall_forall in H. exact (H v Hin).
+Qed.
+
+Lemma entry_bmm m2 m1 nc o j row2 :
+  Forall (fun row => length row = nc) m1 -> (j < nc)%nat -> nth_error m2 o = Some row2 ->
+  entry (bmm m2 m1 nc) o j = Some (existsb (fun p : bool * list bool => fst p && nth j (snd p) false) (combine row2 m1)).
+Proof.
+  intros Hw Hj Ho. unfold entry. rewrite bmm_rows, nth_error_map, Ho. cbn [option_map]. unfold bmm_row.
+  apply fold_orv_spec; [|exact Hj]. apply (Forall_combine_snd (fun row => length row = nc)). exact Hw.
+Qed.
+
+Lemma bmm_wf m2 m1 nc : Forall (fun row => length row = nc) m1 -> Forall (fun row => length row = nc) (bmm m2 m1 nc).
+Proof.
+  intros Hw. rewrite bmm_rows. apply Forall_forall. intros row Hin. apply in_map_iff in Hin. destruct Hin as [row2 [<- _]].
+  unfold bmm_row. generalize (combine row2 m1) (Forall_combine_snd (fun row => length row = nc) row2 m1 Hw).
+  induction l as [|p l IH]; intros Hl; cbn [fold_right]; [apply repeat_length|].
+  apply Forall_cons_iff in Hl. destruct Hl as [Hp Hl']. specialize (IH Hl'). destruct (fst p); [|exact IH].
+  rewrite orv_length, IH. cbn beta in Hp. rewrite Hp. lia.
+Qed.
+
+(* one step: m[u][v] and acc[v][j] give (m . acc)[u][j], and conversely *)
+Lemma bmm_true_intro m acc nc u v j :
+  Forall (fun row => length row = nc) acc -> (j < nc)%nat ->
+  entry m u v = Some true -> entry acc v j = Some true -> entry (bmm m acc nc) u j = Some true.
+Proof.
+  intros Hw Hj Hm Ha. unfold entry in Hm, Ha.
+  destruct (nth_error m u) as [row|] eqn:Eu; [|discriminate]. destruct (nth_error acc v) as [arow|] eqn:Ev; [|discriminate].
+  rewrite (entry_bmm m acc nc u j row Hw Hj Eu). f_equal. apply existsb_exists. exists (true, arow). split.
+  - apply (nth_error_In _ v). rewrite nth_error_combine, Hm, Ev. reflexivity.
+  - cbn. apply (nth_error_nth _ _ false) in Ha. exact Ha.
+Qed.
+Lemma bmm_true_elim m acc nc u j :
+  Forall (fun row => length row = nc) acc -> (j < nc)%nat ->
+  entry (bmm m acc nc) u j = Some true -> exists v, entry m u v = Some true /\ entry acc v j = Some true.
+Proof.
+  intros Hw Hj H. unfold entry in H. rewrite bmm_rows, nth_error_map in H.
+  destruct (nth_error m u) as [row|] eqn:Eu; [|discriminate]. cbn [option_map] in H. unfold bmm_row in H.
+  rewrite fold_orv_spec in H; [|apply (Forall_combine_snd (fun row => length row = nc)); exact Hw|exact Hj].
+  injection H as H. apply existsb_exists in H. destruct H as [[b arow] [Hin Hp]]. cbn in Hp. apply andb_true_iff in Hp. destruct Hp as [-> Hn].
+  apply In_nth_error in Hin. destruct Hin as [v Hv]. rewrite nth_error_combine in Hv.
+  destruct (nth_error row v) as [bv|] eqn:E1; [|discriminate]. destruct (nth_error acc v) as [av|] eqn:E2; [|discriminate].
+  injection Hv as -> ->. exists v. unfold entry. rewrite Eu, E2. split; [exact E1|].
+  rewrite Forall_forall in Hw. rewrite (nth_error_Some_nth arow j false) by (rewrite (Hw arow (nth_error_In _ _ E2)); exact Hj).
+  f_equal. exact Hn.
+Qed.
+
+Lemma reach_fold_connected nc j : forall rest acc o,
+  Forall (fun row => length row = nc) acc -> (j < nc)%nat ->
+  (entry (fold_left (fun acc m => bmm m acc nc) rest acc) o j = Some true <->
+   exists h, entry acc h j = Some true /\ connected rest h o).
+Proof.
+  induction rest as [|m rest IH]; intros acc o Hw Hj; cbn [fold_left connected].
+  - split; [intros H; exists o; split; [exact H|reflexivity]|intros [h [H ->]]; exact H].
+  - rewrite (IH (bmm m acc nc) o (bmm_wf m acc nc Hw) Hj). split.
+    + intros [h [Hb Hc]]. destruct (bmm_true_elim m acc nc h j Hw Hj Hb) as [v [Hm Ha]].
+      exists v. split; [exact Ha|]. exists h. split; assumption.
+    + intros [v [Ha [h [Hm Hc]]]]. exists h. split; [|exact Hc]. exact (bmm_true_intro m acc nc h v j Hw Hj Hm Ha).
+Qed.
+
+(* reach[o][j] is true exactly when an all-true mask path j -> o exists *)
+Theorem reach_connected m0 rest nc j o :
+  Forall (fun row => length row = nc) m0 -> (j < nc)%nat ->
+  (entry (reach (m0 :: rest) nc) o j = Some true <-> connected (m0 :: rest) j o).
+Proof. intros Hw Hj. unfold reach. cbn [connected]. apply reach_fold_connected; assumption. Qed.
+
+(* ---- independence from reach = false, for arbitrary (well-chained) masks and all weights ---- *)
+Definition colflag (j : nat) (R : list (list bool)) : list bool := map (fun row => negb (nth j row false)) R.
+Fixpoint reach_list (nc : nat) (acc : list (list bool)) (rest : list (list (list bool))) : list (list (list bool)) :=
+  match rest with [] => [] | m :: r => let acc' := bmm m acc nc in acc' :: reach_list nc acc' r end.
+(* every row of a mask is no longer than the number of units of the previous layer *)
+Fixpoint chained (prev : nat) (rest : list (list (list bool))) : Prop :=
+  match rest with [] => True | m :: r => Forall (fun row => (length row <= prev)%nat) m /\ chained (length m) r end.
+
+Lemma last_reach_list nc rest : forall acc, last (reach_list nc acc rest) acc = fold_left (fun acc m => bmm m acc nc) rest acc.
+Proof. induction rest as [|m rest IH]; intros acc; [reflexivity|]. cbn [reach_list fold_left]. rewrite last_cons. apply IH. Qed.
+
+Lemma layer_ok_colflag nc j m acc :
+  Forall (fun row => length row = nc) acc -> (j < nc)%nat -> Forall (fun row => (length row <= length acc)%nat) m ->
+  layer_ok m (colflag j acc) (colflag j (bmm m acc nc)) = true.
+Proof.
+  intros Hw Hj Hm. apply layer_ok_of_entries. intros u v Hu He. unfold colflag in *.
+  rewrite nth_error_map in Hu. destruct (nth_error (bmm m acc nc) u) as [brow|] eqn:Eb; [|discriminate]. cbn in Hu.
+  injection Hu as Hu. apply negb_true_iff in Hu.
+  assert (Hvlen : (v < length acc)%nat).
+  { unfold entry in He. destruct (nth_error m u) as [row|] eqn:Eu; [|discriminate].
+    rewrite Forall_forall in Hm. pose proof (Hm row (nth_error_In _ _ Eu)). assert (v < length row)%nat by (apply nth_error_Some; congruence). lia. }
+  destruct (nth_error acc v) as [arow|] eqn:Ev; [|apply nth_error_None in Ev; lia].
+  rewrite nth_error_map, Ev. cbn. f_equal. apply negb_true_iff.
+  destruct (nth j arow false) eqn:En; [|reflexivity]. exfalso.
+  assert (Ha : entry acc v j = Some true).
+  { unfold entry. rewrite Ev. rewrite Forall_forall in Hw.
+    rewrite (nth_error_Some_nth arow j false) by (rewrite (Hw arow (nth_error_In _ _ Ev)); exact Hj). f_equal. exact En. }
+  pose proof (bmm_true_intro m acc nc u v j Hw Hj He Ha) as Hb. unfold entry in Hb. rewrite Eb in Hb.
+  apply (nth_error_nth _ _ false) in Hb. congruence.
+Qed.
+
+Lemma chain_ok_colflag nc j : forall rest acc,
+  Forall (fun row => length row = nc) acc -> (j < nc)%nat -> chained (length acc) rest ->
+  chain_ok rest (colflag j acc) (map (colflag j) (reach_list nc acc rest)) = true.
+Proof.
+  induction rest as [|m rest IH]; intros acc Hw Hj Hc; [reflexivity|]. destruct Hc as [Hm Hc].
+  cbn [reach_list map chain_ok]. rewrite (layer_ok_colflag nc j m acc Hw Hj Hm). cbn [andb].
+  apply IH; [apply bmm_wf; exact Hw|exact Hj|]. rewrite bmm_rows, map_length. exact Hc.
+Qed.
+
+Section ReachSound.
+  Context {A : Type} (zero : A) (add mul : A -> A -> A).
+  Hypothesis mul_zero_l : forall a, mul zero a = zero.
+
+  (* If the reachability matrix says output o cannot be reached from input j, then -- whatever the weights, biases
+     and activation -- changing x_j alone leaves output o unchanged. *)
+  Theorem reach_false_independent act m0 rest nc ws bs x x' j o :
+    Forall (fun row => length row = nc) m0 -> chained (length m0) rest -> (j < nc)%nat ->
+    length x = length x' -> (forall i, i <> j -> nth_error x i = nth_error x' i) ->
+    entry (reach (m0 :: rest) nc) o j = Some false ->
+    nth_error (masked_mlp zero add mul ws bs (m0 :: rest) act x) o = nth_error (masked_mlp zero add mul ws bs (m0 :: rest) act x') o.
+  Proof.
+    intros Hw Hc Hj Hlen Hag Hr.
+    set (pin := map (fun i => negb (i =? j)%nat) (seq 0 nc)).
+    assert (Hin : agreeb pin x x').
+    { unfold pin. apply agreeb_of_nth; [exact Hlen|]. intros i r Hi HP.
+      assert (Hinc : (i < nc)%nat) by (assert (Hs : nth_error (seq 0 nc) i <> None) by congruence; apply nth_error_Some in Hs; rewrite seq_length in Hs; exact Hs).
+      rewrite nth_error_seq in Hi by exact Hinc. injection Hi as <-. apply Hag. apply negb_true_iff in HP. apply Nat.eqb_neq in HP. exact HP. }
+    assert (H0 : layer_ok m0 pin (colflag j m0) = true).
+    { apply layer_ok_of_entries. intros u v Hu He. unfold colflag in Hu. rewrite nth_error_map in Hu.
+      destruct (nth_error m0 u) as [row|] eqn:Eu; [|discriminate]. cbn in Hu. injection Hu as Hu. apply negb_true_iff in Hu.
+      unfold entry in He. rewrite Eu in He. rewrite Forall_forall in Hw. pose proof (Hw row (nth_error_In _ _ Eu)) as Hrow.
+      assert (Hv : (v < nc)%nat) by (rewrite <- Hrow; apply nth_error_Some; congruence).
+      unfold pin. rewrite nth_error_map, nth_error_seq by exact Hv. cbn. f_equal. apply negb_true_iff. apply Nat.eqb_neq.
+      intros ->. apply (nth_error_nth _ _ false) in He. congruence. }
+    assert (Hchain : chain_ok (m0 :: rest) pin (colflag j m0 :: map (colflag j) (reach_list nc m0 rest)) = true).
+    { cbn [chain_ok]. rewrite H0. cbn [andb]. apply chain_ok_colflag; assumption. }
+    pose proof (mlp_agree zero add mul mul_zero_l act _ _ _ ws bs x x' Hchain Hin) as H.
+    rewrite last_cons in H. change (last (map (colflag j) (reach_list nc m0 rest)) (colflag j m0)) with
+      (last (map (colflag j) (reach_list nc m0 rest)) (colflag j m0)) in H.
+    assert (Hlast : last (map (colflag j) (reach_list nc m0 rest)) (colflag j m0) = colflag j (reach (m0 :: rest) nc)).
+    { unfold reach. rewrite <- last_reach_list. generalize (reach_list nc m0 rest) as l. generalize m0 as d.
+      clear. intros d l. revert d. induction l as [|a l IH]; intros d; [reflexivity|]. rewrite map_cons, !last_cons. apply IH. }
+    rewrite Hlast in H. unfold colflag in H.
+    unfold entry in Hr. destruct (nth_error (reach (m0 :: rest) nc) o) as [row|] eqn:Eo; [|discriminate].
+    apply (agreeb_nth _ _ _ _ H o row Eo). apply negb_true_iff. apply (nth_error_nth _ _ false) in Hr. exact Hr.
+  Qed.
+End ReachSound.
+
+(* the masks of masked_autoregressive_mlp are well chained, so the theorem applies to them *)
+Lemma mlp_masks_chained rin hid rout depth :
+  match mlp_masks rin hid rout depth with
+  | [] => False
+  | m0 :: rest => Forall (fun row => length row = length rin) m0 /\ chained (length m0) rest
+  end.
+Proof.
+  revert rin. induction depth as [|d IH]; intros rin.
+  - rewrite mlp_masks_0. split; [apply rank_mask_shape|exact I].
+  - rewrite mlp_masks_S. split; [apply rank_mask_shape|].
+    specialize (IH hid). destruct (mlp_masks hid hid rout d) as [|m1 rest] eqn:E; [contradiction|].
+    destruct IH as [Hw Hc]. cbn [chained]. split; [|exact Hc].
+    destruct (rank_mask_shape rin hid true) as [Hl _]. rewrite Hl.
+    eapply Forall_impl; [|exact Hw]. intros row Hrow. cbn in Hrow. lia.
+Qed.
+
+(* ------------------------------------------------------------------------------------------ *)
+(* 9. the Where wrapper is applied at evaluation; the BNAF weight pipeline keeps the zeros       *)
+(* ------------------------------------------------------------------------------------------ *)
+Lemma entry_where_mask {A} (zero : A) m (w : list (list A)) r c :
+  entry (where_mask zero m w) r c =
+  match entry m r c, entry w r c with Some b, Some v => Some (if b then v else zero) | _, _ => None end.
+Proof.
+  unfold entry, where_mask. rewrite nth_error_map, nth_error_combine.
+  destruct (nth_error m r) as [mrow|]; [|reflexivity]. destruct (nth_error w r) as [wrow|]; cbn [option_map fst snd].
+  - unfold maskrow. rewrite nth_error_map, nth_error_combine.
+    destruct (nth_error mrow c) as [b|]; [|reflexivity]. destruct (nth_error wrow c); reflexivity.
+  - destruct (nth_error mrow c); reflexivity.
+Qed.
+
+(* "training cannot un-mask": whatever raw matrix w the optimiser produced, the evaluated weight is zero off the mask *)
+Theorem where_survives_update {A} (zero : A) m (w : list (list A)) r c v :
+  entry m r c = Some false -> entry (where_mask zero m w) r c = Some v -> v = zero.
+Proof. intros Hm H. rewrite entry_where_mask, Hm in H. destruct (entry w r c); [injection H as <-; reflexivity|discriminate]. Qed.
+
+Section BnafWeightP.
+  Context {A : Type} (zero : A) (mul : A -> A -> A) (sp : A -> A) (norm : list A -> A) (div : A -> A -> A).
+  Hypothesis mul_zero_r : forall a, mul a zero = zero.
+  Hypothesis div_zero_l : forall a, div zero a = zero.
+
+  (* softplus on the diagonal blocks and weight normalisation keep every entry outside the block-lower-triangular
+     mask at zero (in floats: for finite scale and a finite non-zero row norm) *)
+  Theorem bnaf_weight_zero_off_mask tril diag w1 w2 scale_raw r c v :
+    entry tril r c = Some false -> entry diag r c = Some false ->
+    entry (bnaf_weight zero mul sp norm div tril diag w1 w2 scale_raw) r c = Some v -> v = zero.
+  Proof.
+    intros Ht Hd H. unfold bnaf_weight, weight_norm, entry in H.
+    rewrite nth_error_map, nth_error_combine in H.
+    destruct (nth_error (bnaf_prenorm zero sp tril diag w1 w2) r) as [vrow|] eqn:Ev; [|discriminate].
+    destruct (nth_error scale_raw r) as [s|]; [|discriminate]. cbn [option_map fst snd] in H.
+    rewrite nth_error_map in H. destruct (nth_error vrow c) as [e|] eqn:Ee; [|discriminate]. cbn in H. injection H as <-.
+    assert (He : e = zero).
+    { unfold bnaf_prenorm in Ev. rewrite nth_error_map, !nth_error_combine in Ev.
+      unfold entry in Hd. destruct (nth_error diag r) as [drow|]; [|discriminate].
+      destruct (nth_error (map (map sp) (where_mask zero tril w1)) r) as [arow|]; [|discriminate].
+      destruct (nth_error (where_mask zero tril w2) r) as [brow|] eqn:Eb; [|discriminate].
+      cbn [option_map fst snd] in Ev. injection Ev as <-. unfold where3_row in Ee.
+      rewrite nth_error_map, !nth_error_combine, Hd in Ee.
+      destruct (nth_error arow c); [|discriminate]. destruct (nth_error brow c) as [bv|] eqn:Ebv; [|discriminate].
+      cbn in Ee. injection Ee as <-.
+      apply (where_survives_update zero tril w2 r c bv Ht). unfold entry. rewrite Eb. exact Ebv. }
+    rewrite He, mul_zero_r, div_zero_l. reflexivity.
+  Qed.
+End BnafWeightP.
+
+(* ------------------------------------------------------------------------------------------ *)
+(* 10. BlockAutoregressiveNetwork: y_i is strictly increasing in x_i (ordered carrier)           *)
+(* ------------------------------------------------------------------------------------------ *)
+Inductive status := SEq | SLt | SFree.
+
+Lemma nth_error_linear {A} (zero : A) add mul (W : list (list A)) b x u :
+  nth_error (linear zero add mul W b x) u =
+  match nth_error W u, nth_error b u with Some row, Some bu => Some (add (dot zero add mul row x) bu) | _, _ => None end.
+Proof.
+  unfold linear. rewrite nth_error_map, nth_error_combine.
+  destruct (nth_error W u); [|reflexivity]. destruct (nth_error b u); reflexivity.
+Qed.
+Lemma linear_length {A} (zero : A) add mul (W : list (list A)) b x : length (linear zero add mul W b x) = Nat.min (length W) (length b).
+Proof. unfold linear. rewrite map_length, combine_length. reflexivity. Qed.
+Lemma where_mask_length {A} (zero : A) m (w : list (list A)) : length (where_mask zero m w) = Nat.min (length m) (length w).
+Proof. unfold where_mask. rewrite map_length, combine_length. reflexivity. Qed.
+Lemma where_mask_row_length {A} (zero : A) m (w : list (list A)) u row n :
+  Forall (fun r => length r = n) m -> Forall (fun r => length r = n) w ->
+  nth_error (where_mask zero m w) u = Some row -> length row = n.
+Proof.
+  intros Hm Hw H. unfold where_mask in H. rewrite nth_error_map, nth_error_combine in H.
+  destruct (nth_error m u) as [mr|] eqn:E1; [|discriminate]. destruct (nth_error w u) as [wr|] eqn:E2; [|discriminate].
+  cbn in H. injection H as <-. unfold maskrow. rewrite map_length, combine_length.
+  rewrite Forall_forall in Hm, Hw. rewrite (Hm mr (nth_error_In _ _ E1)), (Hw wr (nth_error_In _ _ E2)). lia.
+Qed.
+
+Section BnafMono.
+  Context {A : Type} (zero : A) (add mul : A -> A -> A) (lt : A -> A -> Prop).
+  Hypothesis mul_zero_l : forall a, mul zero a = zero.
+  Hypothesis lt_trans : forall a b c, lt a b -> lt b c -> lt a c.
+  Hypothesis add_lt_l : forall a a' b, lt a a' -> lt (add a b) (add a' b).
+  Hypothesis add_lt_r : forall a b b', lt b b' -> lt (add a b) (add a b').
+  Hypothesis mul_pos_lt : forall w a a', lt zero w -> lt a a' -> lt (mul w a) (mul w a').
+  Variable act : A -> A.
+  Hypothesis act_incr : forall a a', lt a a' -> lt (act a) (act a').
+  Local Notation dot := (dot zero add mul).
+  Local Notation linear := (linear zero add mul).
+
+  Definition rel1 (s : status) (a a' : A) : Prop := match s with SEq => a = a' | SLt => lt a a' | SFree => True end.
+  Definition vrel (st : nat -> status) (x x' : list A) : Prop :=
+    length x = length x' /\ forall c a a', nth_error x c = Some a -> nth_error x' c = Some a' -> rel1 (st c) a a'.
+  Definition wok (st : nat -> status) (w : list A) : Prop :=
+    forall c v, nth_error w c = Some v -> match st c with SEq => True | SLt => lt zero v | SFree => v = zero end.
+  Definition le' (a b : A) : Prop := a = b \/ lt a b.
+
+  Lemma add_lt_le T T' D D' : lt T T' -> le' D D' -> lt (add T D) (add T' D').
+  Proof. intros H [->|HD]; [apply add_lt_l; exact H|]. apply (lt_trans _ (add T' D)); [apply add_lt_l; exact H|apply add_lt_r; exact HD]. Qed.
+  Lemma add_le_lt T T' D D' : le' T T' -> lt D D' -> lt (add T D) (add T' D').
+  Proof. intros [->|HT] H; [apply add_lt_r; exact H|]. apply add_lt_le; [exact HT|right; exact H]. Qed.
+  Lemma add_le_le T T' D D' : le' T T' -> le' D D' -> le' (add T D) (add T' D').
+  Proof. intros [->|HT] HD; [destruct HD as [->|HD]; [left; reflexivity|right; apply add_lt_r; exact HD]|right; apply add_lt_le; assumption]. Qed.
+
+  Lemma dot_rel w : forall x x' st, vrel st x x' -> wok st w ->
+    le' (dot w x) (dot w x') /\
+    ((forall c, (c < length w)%nat -> (c < length x)%nat -> st c <> SLt) -> dot w x = dot w x') /\
+    ((exists c, (c < length w)%nat /\ (c < length x)%nat /\ st c = SLt) -> lt (dot w x) (dot w x')).
+  Proof.
+    induction w as [|v w IH]; intros x x' st [Hlen Hrel] Hw.
+    - split; [left; reflexivity|]. split; [reflexivity|]. intros [c [Hc _]]. cbn in Hc. lia.
+    - destruct x as [|a xs]; destruct x' as [|a' xs']; try discriminate.
+      + split; [left; reflexivity|]. split; [reflexivity|]. intros [c [_ [Hc _]]]. cbn in Hc. lia.
+      + assert (Hv : vrel (fun c => st (S c)) xs xs').
+        { split; [cbn in Hlen; lia|]. intros c b b' Hb Hb'. exact (Hrel (S c) b b' Hb Hb'). }
+        assert (Hwk : wok (fun c => st (S c)) w) by (intros c u Hu; exact (Hw (S c) u Hu)).
+        destruct (IH xs xs' _ Hv Hwk) as [IH1 [IH2 IH3]].
+        pose proof (Hrel 0%nat a a' eq_refl eq_refl) as H0. pose proof (Hw 0%nat v eq_refl) as W0.
+        assert (Hhead : le' (mul v a) (mul v a') /\ (st 0%nat <> SLt -> mul v a = mul v a') /\ (st 0%nat = SLt -> lt (mul v a) (mul v a'))).
+        { destruct (st 0%nat); cbn in H0.
+          - subst a'. split; [left; reflexivity|]. split; [reflexivity|discriminate].
+          - split; [right; apply mul_pos_lt; assumption|]. split; [congruence|intros _; apply mul_pos_lt; assumption].
+          - subst v. rewrite !mul_zero_l. split; [left; reflexivity|]. split; [reflexivity|discriminate]. }
+        destruct Hhead as [Hh1 [Hh2 Hh3]].
+        change (dot (v :: w) (a :: xs)) with (add (mul v a) (dot w xs)).
+        change (dot (v :: w) (a' :: xs')) with (add (mul v a') (dot w xs')).
+        split; [apply add_le_le; assumption|]. split.
+        * intros Hno. rewrite Hh2 by (apply (Hno 0%nat); cbn; lia). rewrite IH2; [reflexivity|].
+          intros c Hc1 Hc2. apply (Hno (S c)); cbn; lia.
+        * intros [c [Hc1 [Hc2 Hst]]]. destruct c as [|c].
+          -- apply add_lt_le; [exact (Hh3 Hst)|exact IH1].
+          -- apply add_le_lt; [exact Hh1|]. apply IH3. exists c. cbn in Hc1, Hc2. repeat split; [lia|lia|exact Hst].
+  Qed.
+
+  Definition stat (blk : nat -> nat) (i : nat) (c : nat) : status :=
+    if (blk c <? i)%nat then SEq else if (blk c =? i)%nat then SLt else SFree.
+
+  (* one block-autoregressive layer with effective weight W *)
+  Lemma layer_mono (bin bout : nat -> nat) i (W : list (list A)) b x x' :
+    (forall u c v, entry W u c = Some v -> (bout u < bin c)%nat -> v = zero) ->
+    (forall u c v, entry W u c = Some v -> bout u = bin c -> lt zero v) ->
+    (forall u row, nth_error W u = Some row -> bout u = i -> exists c, (c < length row)%nat /\ (c < length x)%nat /\ bin c = i) ->
+    vrel (stat bin i) x x' -> vrel (stat bout i) (linear W b x) (linear W b x').
+  Proof.
+    intros HZ HP HN [Hlen Hrel]. split; [rewrite !linear_length; reflexivity|].
+    intros u y y' Hy Hy'. rewrite nth_error_linear in Hy, Hy'.
+    destruct (nth_error W u) as [row|] eqn:Eu; [|discriminate]. destruct (nth_error b u) as [bu|]; [|discriminate].
+    injection Hy as <-. injection Hy' as <-.
+    unfold stat at 1. destruct (bout u <? i)%nat eqn:E1; [|destruct (bout u =? i)%nat eqn:E2; [|exact I]].
+    - apply Nat.ltb_lt in E1. cbn. f_equal.
+      set (st := fun c => if (bin c <? i)%nat then SEq else SFree).
+      assert (Hv : vrel st x x').
+      { split; [exact Hlen|]. intros c a a' Ha Ha'. specialize (Hrel c a a' Ha Ha'). unfold st, stat in *.
+        destruct (bin c <? i)%nat; [exact Hrel|exact I]. }
+      assert (Hw : wok st row).
+      { intros c v Hc. unfold st. destruct (bin c <? i)%nat eqn:E; [exact I|]. apply Nat.ltb_ge in E.
+        apply (HZ u c v); [unfold entry; rewrite Eu; exact Hc|lia]. }
+      destruct (dot_rel row x x' st Hv Hw) as [_ [H2 _]]. apply H2. intros c _ _. unfold st. destruct (bin c <? i)%nat; discriminate.
+    - apply Nat.ltb_ge in E1. apply Nat.eqb_eq in E2. cbn. apply add_lt_l.
+      assert (Hw : wok (stat bin i) row).
+      { intros c v Hc. unfold stat. destruct (bin c <? i)%nat eqn:E; [exact I|]. apply Nat.ltb_ge in E.
+        destruct (bin c =? i)%nat eqn:E'.
+        - apply Nat.eqb_eq in E'. apply (HP u c v); [unfold entry; rewrite Eu; exact Hc|lia].
+        - apply Nat.eqb_neq in E'. apply (HZ u c v); [unfold entry; rewrite Eu; exact Hc|lia]. }
+      destruct (dot_rel row x x' (stat bin i) (conj Hlen Hrel) Hw) as [_ [_ H3]]. apply H3.
+      destruct (HN u row Eu E2) as [c [Hc1 [Hc2 Hc3]]]. exists c. repeat split; [exact Hc1|exact Hc2|].
+      unfold stat. rewrite Hc3, Nat.ltb_irrefl, Nat.eqb_refl. reflexivity.
+  Qed.
+
+  Lemma vrel_map_act st x x' : vrel st x x' -> vrel st (map act x) (map act x').
+  Proof.
+    intros [Hlen Hrel]. split; [rewrite !map_length; exact Hlen|]. intros c a a' Ha Ha'. rewrite nth_error_map in Ha, Ha'.
+    destruct (nth_error x c) as [b|] eqn:E; [|discriminate]. destruct (nth_error x' c) as [b'|] eqn:E'; [|discriminate].
+    injection Ha as <-. injection Ha' as <-. specialize (Hrel c b b' E E'). destruct (st c); cbn in *; [congruence|apply act_incr; exact Hrel|exact I].
+  Qed.
+  Lemma vrel_vadd st x x' t : vrel st x x' -> vrel st (vadd add x t) (vadd add x' t).
+  Proof.
+    intros [Hlen Hrel]. unfold vadd. split; [rewrite !map_length, !combine_length, Hlen; reflexivity|].
+    intros c a a' Ha Ha'. rewrite nth_error_map, nth_error_combine in Ha, Ha'.
+    destruct (nth_error x c) as [b|] eqn:E; [|discriminate]. destruct (nth_error x' c) as [b'|] eqn:E'; [|discriminate].
+    destruct (nth_error t c) as [tc|]; [|discriminate]. injection Ha as <-. injection Ha' as <-. cbn [fst snd].
+    specialize (Hrel c b b' E E'). destruct (st c); cbn in *; [congruence|apply add_lt_l; exact Hrel|exact I].
+  Qed.
+
+  (* well-shaped layers with strictly positive raw weights on the diagonal blocks, consecutive block shapes compatible *)
+  Fixpoint layers_good (dim : nat) (shapes : list (nat * nat)) (ws : list (list (list A))) (bs : list (list A)) : Prop :=
+    match shapes with
+    | [] => True
+    | s :: rest =>
+        let w := hd [] ws in let b := hd [] bs in
+        (0 < fst s)%nat /\ (0 < snd s)%nat /\
+        length w = (fst s * dim)%nat /\ Forall (fun row => length row = (snd s * dim)%nat) w /\ length b = (fst s * dim)%nat /\
+        (forall r c v, entry w r c = Some v -> (c / snd s)%nat = (r / fst s)%nat -> lt zero v) /\
+        match rest with [] => True | s2 :: _ => snd s2 = fst s end /\
+        layers_good dim rest (tl ws) (tl bs)
+    end.
+
+  Lemma tril_layer_mono dim i bh bw (w : list (list A)) b x x' :
+    (0 < bh)%nat -> (0 < bw)%nat -> (i < dim)%nat ->
+    length w = (bh * dim)%nat -> Forall (fun row => length row = (bw * dim)%nat) w -> length b = (bh * dim)%nat ->
+    (forall r c v, entry w r c = Some v -> (c / bw)%nat = (r / bh)%nat -> lt zero v) ->
+    length x = (bw * dim)%nat ->
+    vrel (stat (fun c => c / bw)%nat i) x x' ->
+    let h := linear (where_mask zero (block_tril_mask bh bw dim 0) w) b x in
+    let h' := linear (where_mask zero (block_tril_mask bh bw dim 0) w) b x' in
+    vrel (stat (fun u => u / bh)%nat i) h h' /\ length h = (bh * dim)%nat.
+  Proof.
+    intros Hbh Hbw Hi Hlw Hrw Hlb Hpos Hlx Hv h h'.
+    destruct (block_tril_shape bh bw dim 0) as [HR HC].
+    split.
+    - apply (layer_mono (fun c => c / bw)%nat (fun u => u / bh)%nat i); [| | |exact Hv].
+      + intros u c v He Hlt. rewrite entry_where_mask in He.
+        destruct (entry (block_tril_mask bh bw dim 0) u c) as [bb|] eqn:Et; [|discriminate].
+        destruct (entry_Some_bounds _ _ _ u c bb HR HC Et) as [Hu Hc]. rewrite block_tril_closed_form_0 in Et by assumption.
+        injection Et as <-. destruct (entry w u c); [|discriminate]. injection He as <-.
+        destruct (Nat.leb_spec (c / bw) (u / bh)); [lia|reflexivity].
+      + intros u c v He Heq. rewrite entry_where_mask in He.
+        destruct (entry (block_tril_mask bh bw dim 0) u c) as [bb|] eqn:Et; [|discriminate].
+        destruct (entry_Some_bounds _ _ _ u c bb HR HC Et) as [Hu Hc]. rewrite block_tril_closed_form_0 in Et by assumption.
+        injection Et as <-. destruct (entry w u c) as [v0|] eqn:Ew; [|discriminate]. injection He as <-.
+        destruct (Nat.leb_spec (c / bw) (u / bh)); [|lia]. apply (Hpos u c v0 Ew). lia.
+      + intros u row Hrow Hu. exists (i * bw)%nat.
+        rewrite (where_mask_row_length zero _ w u row (bw * dim)%nat HC Hrw Hrow), Hlx.
+        split; [nia|]. split; [nia|]. apply Nat.div_mul. lia.
+    - unfold h. rewrite linear_length, where_mask_length, HR, Hlw, Hlb. lia.
+  Qed.
+
+  Lemma bnaf_run_mono dim i : forall shapes first cterm ws bs x x' bw0,
+    (i < dim)%nat -> layers_good dim shapes ws bs ->
+    match shapes with [] => True | s :: _ => snd s = bw0 end ->
+    (first = true -> match cterm, shapes with Some t, s :: _ => (fst s * dim <= length t)%nat | _, _ => True end) ->
+    length x = (bw0 * dim)%nat -> vrel (stat (fun c => c / bw0)%nat i) x x' ->
+    let bhl := match shapes with [] => bw0 | _ :: _ => fst (last shapes (0, 0)%nat) end in
+    let masks := map (fun s => block_tril_mask (fst s) (snd s) dim 0) shapes in
+    vrel (stat (fun u => u / bhl)%nat i) (bnaf_run zero add mul act first cterm ws bs masks x) (bnaf_run zero add mul act first cterm ws bs masks x')
+    /\ length (bnaf_run zero add mul act first cterm ws bs masks x) = (bhl * dim)%nat.
+  Proof.
+    induction shapes as [|s rest IH]; intros first cterm ws bs x x' bw0 Hi Hg H0 Hct Hlx Hv.
+    - cbn. split; assumption.
+    - destruct s as [bh bw]. cbn [fst snd] in H0. subst bw0.
+      cbn [layers_good fst snd] in Hg. destruct Hg as [Hbh [Hbw [Hlw [Hrw [Hlb [Hpos [Hnext Hg]]]]]]].
+      destruct (tril_layer_mono dim i bh bw (hd [] ws) (hd [] bs) x x' Hbh Hbw Hi Hlw Hrw Hlb Hpos Hlx Hv) as [Hh Hlh].
+      cbn [map bnaf_run fst snd].
+      destruct rest as [|s2 rest].
+      + cbn [map last fst]. split; assumption.
+      + cbn [map].
+        set (h := linear (where_mask zero (block_tril_mask bh bw dim 0) (hd [] ws)) (hd [] bs) x) in *.
+        set (h' := linear (where_mask zero (block_tril_mask bh bw dim 0) (hd [] ws)) (hd [] bs) x') in *.
+        set (g := match first, cterm with true, Some t => vadd add h t | _, _ => h end).
+        set (g' := match first, cterm with true, Some t => vadd add h' t | _, _ => h' end).
+        assert (Hgv : vrel (stat (fun u => (u / bh)%nat) i) g g').
+        { unfold g, g'. destruct first; [destruct cterm as [t|]|]; try exact Hh. apply vrel_vadd. exact Hh. }
+        assert (Hlg : length g = (bh * dim)%nat).
+        { unfold g. destruct first; [destruct cterm as [t|]|]; try exact Hlh.
+          unfold vadd. rewrite map_length, combine_length, Hlh. specialize (Hct eq_refl). cbn [fst] in Hct. lia. }
+        pose proof (vrel_map_act _ _ _ Hgv) as Hm.
+        change (last ((bh, bw) :: s2 :: rest) (0, 0)%nat) with (last (s2 :: rest) (0, 0)%nat).
+        apply (IH false cterm (tl ws) (tl bs) (map act g) (map act g') bh); try assumption.
+        * intros Hf; discriminate.
+        * rewrite map_length. exact Hlg.
+  Qed.
+
+  (* y_i is strictly increasing in x_i, whatever the later coordinates do: all weights (positive on the diagonal
+     blocks), biases, depths, block sizes, any strictly increasing activation, any condition term *)
+  Theorem bnaf_monotone dim depth bd ws bs cterm x x' i a a' :
+    (0 < bd)%nat -> (i < dim)%nat -> length x = dim -> length x' = dim ->
+    layers_good dim (bnaf_block_shapes depth bd) ws bs ->
+    match cterm with Some t => (bd * dim <= length t)%nat | None => True end ->
+    (forall j, (j < i)%nat -> nth_error x j = nth_error x' j) ->
+    nth_error x i = Some a -> nth_error x' i = Some a' -> lt a a' ->
+    exists y y', nth_error (bnaf_transform zero add mul dim depth bd ws bs act cterm x) i = Some y /\
+                 nth_error (bnaf_transform zero add mul dim depth bd ws bs act cterm x') i = Some y' /\ lt y y'.
+  Proof.
+    intros Hbd Hi Hlx Hlx' Hg Hct Hag Ha Ha' Hlt. unfold bnaf_transform, bnaf_tril_masks.
+    assert (Hv : vrel (stat (fun c => (c / 1)%nat) i) x x').
+    { split; [lia|]. intros c b b' Hb Hb'. unfold stat. rewrite Nat.div_1_r.
+      destruct (c <? i)%nat eqn:E1; [apply Nat.ltb_lt in E1; cbn; specialize (Hag c E1); congruence|].
+      destruct (c =? i)%nat eqn:E2; [|exact I]. apply Nat.eqb_eq in E2. subst c. cbn. congruence. }
+    destruct (bnaf_run_mono dim i (bnaf_block_shapes depth bd) true cterm ws bs x x' 1%nat Hi Hg) as [Hr Hl].
+    - unfold bnaf_block_shapes. destruct depth; reflexivity.
+    - intros _. destruct cterm as [t|]; [|exact I]. unfold bnaf_block_shapes. destruct depth; cbn [fst]; nia.
+    - lia.
+    - exact Hv.
+    - assert (Hlast : match bnaf_block_shapes depth bd with [] => 1%nat | _ :: _ => fst (last (bnaf_block_shapes depth bd) (0, 0)%nat) end = 1%nat).
+      { unfold bnaf_block_shapes. destruct depth as [|d]; [reflexivity|]. rewrite app_comm_cons, last_last. reflexivity. }
+      cbv zeta in Hr, Hl. rewrite Hlast in Hr, Hl. destruct Hr as [Hlen Hrel].
+      set (Y := bnaf_run zero add mul act true cterm ws bs (map (fun s => block_tril_mask (fst s) (snd s) dim 0) (bnaf_block_shapes depth bd)) x) in *.
+      set (Y' := bnaf_run zero add mul act true cterm ws bs (map (fun s => block_tril_mask (fst s) (snd s) dim 0) (bnaf_block_shapes depth bd)) x') in *.
+      destruct (nth_error Y i) as [y|] eqn:Ey; [|apply nth_error_None in Ey; lia].
+      destruct (nth_error Y' i) as [y'|] eqn:Ey'; [|apply nth_error_None in Ey'; lia].
+      exists y, y'. repeat split. specialize (Hrel i y y' Ey Ey'). unfold stat in Hrel.
+      rewrite Nat.div_1_r, Nat.ltb_irrefl, Nat.eqb_refl in Hrel. exact Hrel.
+  Qed.
+End BnafMono.
